@@ -146,8 +146,8 @@ func (p *Program) discover(pk *packages.Package, f *ast.File) {
 		p.UnitOfFn[obj] = u
 		p.discoverLits(u, fd.Body, pk)
 		p.captureAnalysis(pk, fd)
-		p.literalContexts(pk, fd)
 		p.initBindings(pk, fd)
+		p.literalContexts(pk, fd)
 	}
 	for _, u := range p.Units {
 		if u.Lit != nil && u.CtxType == nil {
@@ -218,10 +218,8 @@ func (p *Program) discoverLits(parent *UnitInfo, body *ast.BlockStmt, pk *packag
 			taken[o] = true
 		}
 	}
-	// ordinals reserved by a hint that matched no literal stay unassigned (the contract reports "no unit matches")
-	for _, o := range bound {
-		taken[o] = true
-	}
+	// an ordinal whose hint matches no literal (the variable was renamed, an anonymous literal was given a name, ...) is not
+	// reserved: it goes, in source order, to the literals that no hint names - renaming alone therefore changes nothing
 	next := 0
 	for i, kd := range kids {
 		if ordOf[i] < 0 {
@@ -506,13 +504,26 @@ func (p *Program) literalContexts(pk *packages.Package, fd *ast.FuncDecl) {
 			}
 			if ft != nil {
 				for i, a := range x.Args {
-					if lit, ok := a.(*ast.FuncLit); ok {
+					lit, ok := a.(*ast.FuncLit)
+					viaVar := false
+					if id, isId := a.(*ast.Ident); isId && !ok {
+						// a literal bound once to a local variable and passed by that name: the parameter's type is its context
+						if v, isVar := info.Uses[id].(*types.Var); isVar {
+							if l, isLit := p.InitBind[v].(*ast.FuncLit); isLit {
+								lit, ok, viaVar = l, true, true
+							}
+						}
+					}
+					if ok {
 						pi := i
 						if ft.Variadic() && pi >= ft.Params().Len()-1 {
 							pi = ft.Params().Len() - 1
 						}
 						if pi < ft.Params().Len() {
-							p.LitCtx[lit] = ft.Params().At(pi).Type()
+							pt := ft.Params().At(pi).Type()
+							if _, named := types.Unalias(pt).(*types.Named); named || !viaVar {
+								p.LitCtx[lit] = pt
+							}
 						}
 					}
 				}
